@@ -526,9 +526,8 @@ Section Producer.
                     mkM back (flat_map t_inputs back) (nsum (map t_work back)) (m_fresh m1)
                         (m_queue_empty m1) (m_gts m1))
             | Ok b =>
-                Ok (Bundled b,
-                    mkM [] (remove_keys (flat_map t_inputs (b_txs b)) (m_umap m1)) 0 false
-                        (m_queue_empty m1) (m_gts m1))
+                (* the pool was drained; rebuild_utxo_map() on it (fix ffb4da9) *)
+                Ok (Bundled b, mkM [] [] 0 false (m_queue_empty m1) (m_gts m1))
             end
         end
     end.
